@@ -243,10 +243,36 @@ func (e *Engine) mergeVal(g string, a, b Val, sa, sb *State, what string) Val {
 			return x
 		}
 	case ElemAddrV:
-		if y, ok := b.(ElemAddrV); ok && x.Arr == y.Arr && x.Idx == y.Idx && pathKey(x.Path) == pathKey(y.Path) {
-			return x
+		if y, ok := b.(ElemAddrV); ok && x.Arr == y.Arr && pathKey(x.Path) == pathKey(y.Path) {
+			nx, ny := x.Nil, y.Nil
+			if nx == "" {
+				nx = "false"
+			}
+			if ny == "" {
+				ny = "false"
+			}
+			out := ElemAddrV{Arr: x.Arr, Idx: e.share(ite(g, x.Idx, y.Idx), ""), Path: x.Path, Nil: ite(g, nx, ny)}
+			if out.Nil == "false" {
+				out.Nil = ""
+			}
+			return out
+		}
+		// a pointer to a slice element merged with a nil pointer (`return &rules[i], true` / `return nil, false`)
+		if y, ok := b.(PtrV); ok && y.Nil == "true" {
+			nx := x.Nil
+			if nx == "" {
+				nx = "false"
+			}
+			return ElemAddrV{Arr: x.Arr, Idx: x.Idx, Path: x.Path, Nil: ite(g, nx, "true")}
 		}
 	case PtrV:
+		if y, ok := b.(ElemAddrV); ok && x.Nil == "true" {
+			ny := y.Nil
+			if ny == "" {
+				ny = "false"
+			}
+			return ElemAddrV{Arr: y.Arr, Idx: y.Idx, Path: y.Path, Nil: ite(g, "true", ny)}
+		}
 		if y, ok := b.(PtrV); ok {
 			nilT := ite(g, x.Nil, y.Nil)
 			switch {
